@@ -55,7 +55,12 @@ type Decoder struct {
 	typList    []string
 	refList    []reflect.Value
 	clsDefList []ClassDef
+	depth      int // values being read inside one another right now
 }
+
+// _maxDepth bounds how deeply values may be nested in the input. The readers recurse once per
+// level, so without a bound a megabyte of list-open tags exhausts the stack of the process.
+const _maxDepth = 100000
 
 //NewDecoder new
 func NewDecoder(r ByteRuneReader, typ map[string]reflect.Type) *Decoder {
@@ -77,6 +82,7 @@ func (d *Decoder) Reset(r ByteRuneReader) {
 	d.typList = make([]string, 0, 11)
 	d.clsDefList = make([]ClassDef, 0, 11)
 	d.refList = make([]reflect.Value, 0, 11)
+	d.depth = 0
 }
 
 //RegisterType register key/value type
@@ -183,6 +189,15 @@ func (d *Decoder) readStruct() (interface{}, error) {
 
 //ReadData read object
 func (d *Decoder) ReadData() (interface{}, error) {
+	if d.depth >= _maxDepth {
+		return nil, newCodecError("ReadData", "values nested deeper than %d", _maxDepth)
+	}
+	d.depth++
+	defer func() { d.depth-- }()
+	return d.readData()
+}
+
+func (d *Decoder) readData() (interface{}, error) {
 	tag, err := d.readTag()
 	if err != nil {
 		return nil, newCodecError("readTag", "unexpected end of input", err)
